@@ -1,7 +1,8 @@
 /-
   C17 — the shipped per-element parameter table (`data/atomic_gauss_params.json`, regenerated
-  into `Gen/CoulombParams.lean` with exact decimals) and the loader
-  (model `Coulomb.load`, hand-written, tied by correspondence).  Finite facts: kernel-decided.
+  into `Gen/CoulombParams.lean` with exact decimals): `table_ok`, `alphas_positive`; and the
+  hand-written reference loader `Coulomb.load` (`model_load_*`; the theorems about the GENERATED
+  loader, which is proved equal to it, are in `Loader.lean`).  Finite facts: kernel-decided.
 -/
 import GridVerif.Model.Coulomb
 import GridVerif.Gen.CoulombParams
@@ -39,7 +40,7 @@ theorem alphas_positive : ∀ e ∈ table, ∀ a ∈ e.2.2, 0 < decVal a := by
 /-- **Loading by symbol and by atomic number**, for every element of the periodic table
 (`grid.utils.num2sym`): if the file has an entry for it, both calls return that entry's two
 arrays (the same ones); if not, both are rejected. -/
-theorem load_every_element :
+theorem model_load_every_element :
     ∀ el ∈ elements,
       load elements table (.sym el.2.toList) = load elements table (.num el.1) ∧
       load elements table (.num el.1) = (table.find? (fun r => r.1 == el.2)).map (·.2) ∧
@@ -48,7 +49,7 @@ theorem load_every_element :
 
 /-- Symbols are case-insensitive and may be padded: `" cl "`, `"CL"`, `"Cl"` load the same entry
 as atomic number 17; `"h"` as 1. -/
-theorem load_normalises :
+theorem model_load_normalises :
     load elements table (.sym " cl ".toList) = load elements table (.num 17) ∧
     load elements table (.sym "CL".toList) = load elements table (.num 17) ∧
     load elements table (.sym "\th\n".toList) = load elements table (.num 1) ∧
@@ -56,7 +57,7 @@ theorem load_normalises :
   decide +kernel
 
 /-- **Unknown symbols and numbers are rejected** (for any table). -/
-theorem load_unknown_rejected {α : Type} (els : List (Nat × String)) (tbl : List (String × α)) :
+theorem model_load_unknown_rejected {α : Type} (els : List (Nat × String)) (tbl : List (String × α)) :
     (∀ s, String.ofList (title (strip s)) ∉ els.map (·.2) → load els tbl (.sym s) = none) ∧
     (∀ n : Int, (n < 0 ∨ n.toNat ∉ els.map (·.1)) → load els tbl (.num n) = none) ∧
     (∀ e, (∀ s, jsonSymbol els e = some s → s ∉ tbl.map (·.1)) → load els tbl e = none) := by
